@@ -142,3 +142,32 @@ Definition check_resume_case (G : omen) (T : Z) (j : nat) (saved_st : saved) (re
           strs_eqb l2 rest && is_done fin
       end
   end.
+
+(* the generator restored from a pickled state, run on with an empty cache:
+   emits [rest] and then None *)
+Definition continue_ok (G : omen) (s : saved) (rest : list ostr) : bool :=
+  let cpf := cp_fast G in
+  match mc_starts (ip_at G) (ln_at G) (og_max_level G) omen_first_object_extra with
+  | None => false
+  | Some starts =>
+      let '(l2, fin, _, _) :=
+        mc_run (ip_at G) cpf (ln_at G) (og_max_level G) omen_optimizer_max_length
+               (S (length rest)) (mc_fuel (ip_at G) (ln_at G) (og_max_level G)) starts cempty (mc_load s) in
+      strs_eqb l2 rest && is_done fin
+  end.
+
+(* C15, two quit/resume cycles through the session-level model: first quit
+   inside the level (state1 pickled), resume, second quit ([inside]: again
+   inside the restored level, state2 pickled; otherwise outside any Markov
+   level), resume: [third] = what restore_omen emitted in the third run, None
+   when the third run did not restore a level *)
+Definition check_two_cycle (G : omen) (state1 : saved) (inside : bool) (state2 : saved)
+           (third : option (list ostr)) : bool :=
+  let cfg1 := sess_quit sess_empty true 0 state1 in
+  let cfg1' := snd (sess_restore omen_number_cleared cfg1) in
+  let cfg2 := sess_quit cfg1' inside 0 state2 in
+  match fst (sess_restore omen_number_cleared cfg2), third with
+  | None, None => true
+  | Some s, Some out => continue_ok G s out
+  | _, _ => false
+  end.
